@@ -13,13 +13,13 @@ from rv import atoms as AT
 from rv import common as C
 from rv import contracts
 
-N_CASES = {'quick': 640, 'thorough': 16000}
+N_CASES = {'quick': 1920, 'thorough': 16000}
 TIMEOUT = {'quick': 1500, 'thorough': 6 * 3600}
 ANCHORS = ['lp:Model.st', 'socp:Model.st', 'gcp:Model.st', 'lp:Model.do_math',
            'socp:Model.do_math', 'gcp:Model.do_math', 'lp:Convex.__le__', 'lp:Convex.__ge__',
            'lp:Convex.__mul__', 'lp:Convex.__add__', 'lp:Convex.__neg__', 'lp:IPCone.to_soc',
            'ro:Model.do_math', 'dro:Model.do_math', 'dro:Model.ro_to_roc']
-FLOORS = {'judged': {'quick': 400, 'thorough': 9000}, 'nontrivial': 80}
+FLOORS = {'judged': {'quick': 1200, 'thorough': 9000}, 'nontrivial': 80}
 RULE = ('random deterministic models (ro and dro front ends; C/B/I variables with user bounds '
         'as bound objects or rows; array-form <=,>=,== rows; 1-3 atom constraints '
         'mult*atom(Mx+v)+g.x+k <=/>= 0 in six spellings over all atoms incl. summed exp/log, '
